@@ -9,6 +9,7 @@ mod e2epub;
 mod e2erec;
 mod e2erep;
 mod e2esub;
+mod e2eshut;
 mod e2ereq;
 mod e2etls;
 mod fanout;
@@ -78,6 +79,7 @@ fn run_suite(suite: &str, cfg: &Cfg) {
         "e2erec" => e2erec::run(cfg),
         "e2esub" => e2esub::run(cfg),
         "e2erep" => e2erep::run(cfg),
+        "e2eshut" => e2eshut::run(cfg),
         other => { eprintln!("unknown suite {other}"); std::process::exit(2); }
     }
 }
@@ -91,6 +93,7 @@ pub fn dispatch_child(op: &str, input: &[u8]) -> String {
         "dcx" => e2esub::dcx(input),
         "ppraw1" => e2esub::child_case(input),
         "wdecg" => wire::wdec_child(input),
+        "shut1" => e2eshut::child_case(input),
         other => codec::child(other, input).unwrap_or_else(|| format!("unknown-op {other}")),
     }
 }
